@@ -93,7 +93,7 @@ def dpss_case(draw):
     kmax = int(math.floor(2 * NW))
     kmode = draw(st.sampled_from(["any", "any", "max", "default"]))
     if kmode == "any":
-        k = draw(st.integers(1, kmax))
+        k = draw(st.sampled_from(list(range(1, kmax + 1))))
     elif kmode == "max":
         k = kmax
     else:
@@ -237,7 +237,7 @@ def c18_sym(ctx, case):
 @st.composite
 def sign_case(draw):
     c = draw(dpss_case())
-    if draw(st.integers(0, 3)) == 0:
+    if draw(st.sampled_from([0, 1, 2, 3])) == 3:
         # the region where the first sample of taper 1 is tiny (1e-10): large N, large NW
         N = draw(st.integers(1500, 4096))
         NW = draw(st.sampled_from([6.0, 7.0, 7.5, 7.75, 8.0, 8]))
